@@ -1108,7 +1108,11 @@ func cmdDump(args []string) int {
 	defer cleanupScratch(scratch)
 	w := &worker{bin: bin, env: meta.Env, scratch: scratch}
 	defer w.stop()
-	res, _ := w.run(&Job{Prop: prop, Seed: seed, Tier: "quick", Index: idx, DumpOnly: true}, time.Minute)
+	tier := os.Getenv("VERIF_TIER")
+	if tier == "" {
+		tier = "quick"
+	}
+	res, _ := w.run(&Job{Prop: prop, Seed: seed, Tier: tier, Index: idx, DumpOnly: true}, time.Minute)
 	fmt.Println(string(res.Scenario))
 	return 0
 }
